@@ -252,3 +252,31 @@ def _(model, alleles):
     ensures(forall(lambda a="Tuple[AlleleId, int]", m=Mutation: implies(a in alleles, (m in result[a]) == (m in alleles[a]))),
             label="keepable-iff-defined")
     modifies(model)
+
+
+# C14 (candidate isolation) / C04 mechanism "candidate minors and considered variants pooled over all major solutions"
+
+@contract("aldy.minor.estimate_minor@considered-variants", native=False)
+def _(gene, major_sols):
+    types(gene="Gene", major_sols="List[MajorSolutionK]")
+    returns("Set[Mutation]")
+    requires(forall(lambda i=int, sa=AlleleId: implies(0 <= i and i < len(major_sols) and sa in major_sols[i].solution, sa.major in gene.alleles)))
+    # what the code does (holds): the considered variants are pooled over ALL candidates handed over
+    ensures(forall(lambda m=Mutation: (m in result) == (
+        m in gene.random_mutations
+        or exists(lambda i=int: 0 <= i and i < len(major_sols) and (
+            m in set(major_sols[i].added)
+            or exists(lambda sa=AlleleId: sa in major_sols[i].solution and (
+                m in gene.alleles[sa.major].func_muts
+                or exists(lambda mi=str: mi in gene.alleles[sa.major].minors and m in gene.alleles[sa.major].minors[mi].neutral_muts))))))),
+        label="pooled-over-all-candidates")
+    # C14: "the refinement computed for one candidate solution does not depend on which other candidates are refined
+    # alongside it": the variants considered for candidate j are those of candidate j (its alleles' catalogued variants,
+    # its novel variants, the gene's random variants).        KNOWN FINDING F6: they are pooled (clause above)
+    ensures(forall(lambda j=int, m=Mutation: implies(0 <= j and j < len(major_sols), (m in result) == (
+        m in gene.random_mutations or m in set(major_sols[j].added)
+        or exists(lambda sa=AlleleId: sa in major_sols[j].solution and (
+            m in gene.alleles[sa.major].func_muts
+            or exists(lambda mi=str: mi in gene.alleles[sa.major].minors and m in gene.alleles[sa.major].minors[mi].neutral_muts)))))),
+        label="considered-variants-of-this-candidate-only")
+    modifies()
